@@ -267,7 +267,10 @@ def rule_js_handback(check):
 
     def atomize(e, top):
         cmp_ = jsast.strict_eq_literal(e, F.consts) if e.get("type") == "BinaryExpression" else None
-        if cmp_ and jsast.opt_member_chain(JF.unparen(cmp_[0])) == [resp, "metrics", "status"]:
+        sc_ = jsguards.status_cmp(F, e) if e.get("type") == "BinaryExpression" else None
+        if sc_ is not None and sc_[0] == [resp, "metrics", "status"]:
+            cmp_ = (None, sc_[1])
+        if cmp_ and (cmp_[0] is None or jsast.opt_member_chain(JF.unparen(cmp_[0])) == [resp, "metrics", "status"]):
             check.expect(cmp_[1] in variants, R, R + "/status-literal", js.loc(e), "compares with %r (a Status name)" % cmp_[1], "main.js compares metrics.status with %r which is no lower-cased Status variant %s" % (cmp_[1], variants))
             return BF.atom("status-is-" + cmp_[1])
         return None
